@@ -253,7 +253,8 @@ def compact_parts(parts):
     return out
 
 
-LINK_KINDS = ["rel", "rel", "missing", "abs-file", "abs-missing", "url"]
+LINK_KINDS = ["rel", "rel", "missing", "abs-file", "abs-missing", "url", "x", "x", "x", "x"]
+X_KINDS = ("rel-x", "abs-file-x", "url-x")
 
 
 def link_target(rng, kind, k, canary_dir):
@@ -266,6 +267,114 @@ def link_target(rng, kind, k, canary_dir):
     if kind == "abs-missing":
         return "file:///no/such/dir%d/decoy%d.png" % (k, k % 3)
     return "http://127.0.0.1:9/img%d.png" % k
+
+
+# ---------------------------------------------------------------------------
+# link targets as they are WRITTEN: a relationship target is a URI reference, the statement resolves "that target"
+# against the input's directory - literally.  Targets with percent escapes (of a space, dots, slashes, the percent sign,
+# non-ASCII letters, NUL), with a query / fragment, a backslash, dot segments, white space, `~` and `$`; and targets whose
+# content type cannot be determined (no extension, an unknown one, a dot in a directory name, URLs with a query string).
+# For every escaped name BOTH the literally named file and the file a decoding / normalising resolver would reach exist,
+# with different bytes (several start with a real PNG / GIF / JPEG / BMP / TIFF signature).
+# ---------------------------------------------------------------------------
+SIGNATURES = [b"\x89PNG\r\n\x1a\n", b"GIF89a", b"\xff\xd8\xff\xe0", b"BM", b"II*\x00", b"RIFF\x00\x00\x00\x00WEBP", b"<svg", b""]
+XWORLD = {}         # absolute path -> bytes, every file made by exotic_world
+BUILTIN_TYPES = {"png": "png", "gif": "gif", "jpeg": "jpeg", "jpg": "jpeg", "tif": "tiff", "tiff": "tiff", "bmp": "bmp"}
+FRIENDLY = ("image/png", "image/gif", "image/jpeg", "image/svg+xml", "image/tiff")
+
+
+def exotic_files(base):
+    """relative names of the files (all below `base`); a name never ends in '/'"""
+    bn = os.path.basename(base)
+    return ["report%20figures/fig1.png", "report figures/fig1.png", "report figures/fig2.png",
+            "%2E%2E%2F" + bn + "%2Fpics%2Fimg1.png",
+            "pics/img%31.png", "pics/img%32.PNG", "100%25.png", "100%.png",
+            "f%C3%BCr/bild.png", "f\u00fcr/bild.png", "fu\u0308r/bild.png",
+            "pics/img0.png?v=2", "pics/img0.png%3Fv=2", "pics\\img0.png", "pics/img0.png ", "%70ics/img2.png",
+            "figures/fig1", "figures/fig3", "figures/fig1.png", "scan.dat", "image.webp", "report.v2/fig1", "report.v2/fig1.png",
+            "figures/fig.1", "noext.", "figures%2Ffig1", "figures/fig1%2Epng", "photo.JPG", "drawing.bmp", "drawing.svg"]
+
+
+def exotic_world(base):
+    XWORLD.clear()
+    for k, rel in enumerate(exotic_files(base)):
+        path = os.path.join(base, rel)
+        os.makedirs(os.path.dirname(path), exist_ok=True)
+        data = SIGNATURES[k % len(SIGNATURES)] + bytes([200, k, 201])
+        with open(path, "wb") as f:
+            f.write(data)
+        XWORLD[path] = data
+    return XWORLD
+
+
+def literal_bytes(path):
+    """what lies at exactly this path (the harness's own look at the file system, outside the audit); None if it cannot be read"""
+    try:
+        with open(path, "rb") as f:
+            return f.read()
+    except (OSError, ValueError):
+        return None
+
+
+def content_type_of(target, defaults, overrides=None):
+    """the statement of content_types: Override by name, Default by the text after the last dot, the built-in image extensions"""
+    if overrides and target in overrides:
+        return overrides[target]
+    ext = target.rpartition(".")[2]
+    if ext in defaults:
+        return defaults[ext]
+    if ext.lower() in BUILTIN_TYPES:
+        return "image/" + BUILTIN_TYPES[ext.lower()]
+    return None
+
+
+def exotic_target(rng, base):
+    """-> (kind, target): kind 'rel-x' (relative), 'abs-file-x' (file: URL of an existing file), 'url-x' (unreachable URL)"""
+    from urllib.parse import quote
+    bn = os.path.basename(base)
+    fam = rng.choice(["escape", "escape", "escape", "notype", "notype", "spelling"])
+    if fam == "escape":
+        target = rng.choice([
+            "report%20figures/fig1.png", "report%20figures/fig2.png", "report%20figures%2Ffig1.png",
+            "%2E%2E%2F" + bn + "%2Fpics%2Fimg0.png", "%2E%2E%2F" + bn + "%2Fpics%2Fimg1.png", "%2e%2e/" + bn + "/pics/img2.png", "..%2F" + bn + "%2Fdecoy1.png",
+            "%2F" + quote(base[1:], safe="") + "%2Fpics%2Fimg2.png", "%2F" + base[1:] + "/decoy0.png",
+            "pics/img%31.png", "pics/img%30.png", "pics/img%32.PNG", "pics%2Fimg0.png", "%70ics/img2.png", "%70ics/img1.png",
+            "100%25.png", "100%2525.png", "100%.png", "100%ZZ.png",
+            "f%C3%BCr/bild.png", "f\u00fcr/bild.png", "fu\u0308r/bild.png", "fu%CC%88r/bild.png", "f%FCr/bild.png",
+            "pics/img0%00.png", "pics/img0.png%00", "pics/img0.png%20", "pics/img0.png%3Fv=2", "pics/img1.png%23x",
+            "figures/fig1%2Epng", "figures%2Ffig1", "figures/fig%31"])
+        return "rel-x", target
+    if fam == "notype":
+        r = rng.random()
+        if r < 0.2:
+            return "url-x", rng.choice(["http://127.0.0.1:9/render?id=7&fmt=thumb", "http://127.0.0.1:9/img%d" % rng.randrange(3), "http://127.0.0.1:9/a.png?size=2",
+                                        "http://127.0.0.1:9/pics/", "http://127.0.0.1:9/i.webp"])
+        if r < 0.35:
+            return "abs-file-x", "file://" + os.path.join(base, rng.choice(["figures/fig1", "scan.dat", "image.webp", "report.v2/fig1", "noext."]))
+        return "rel-x", rng.choice(["figures/fig1", "figures/fig1", "figures/fig2", "figures/fig3", "scan.dat", "image.webp", "missing.webp", "report.v2/fig1", "report.v2/fig2",
+                                    "figures/fig.1", "noext.", "pics/img0.png?v=2", "pics/img1.png?v=2", "pics/img0.png#frag", "pics/img0.png ", "figures/", "figures",
+                                    "pics/img0.PNG.bak", "scan.DAT"])
+    return "rel-x", rng.choice(["./pics/img0.png", "pics//img1.png", "pics/../pics/img2.png", "pics/./img1.png", "../" + bn + "/pics/img0.png", "figures/../decoy1.png",
+                                " pics/img0.png", "pics\\img0.png", "pics\\img1.png", "PICS/IMG0.PNG", "pics/IMG0.png", "~/img0.png", "$HOME/img0.png", "${PWD}/pics/img0.png",
+                                "photo.JPG", "photo.jpg", "drawing.bmp", "drawing.svg", "pics/img0.png;type=a", "pics/img1.jpeg", "pics/img%d.png" % rng.randrange(3)])
+
+
+def world_of(base, pics=()):
+    """the files of the world as the model is told about them: every file made by the harness under both spellings of its
+    name, plus - for the relative targets of this document - whatever lies at exactly join(base, target)"""
+    world = []
+    for k in range(3):
+        world.append([os.path.join(base, "pics", "img%d.png" % k), bytes([9, k, 9]).hex()])
+        world.append(["file://" + os.path.join(base, "pics", "img%d.png" % k), bytes([9, k, 9]).hex()])
+    for path, data in sorted(XWORLD.items()):
+        world.append([path, data.hex()])
+        world.append(["file://" + path, data.hex()])
+    for p in pics:
+        if p.get("link") == "rel-x":
+            data = literal_bytes(os.path.join(base, p["target"]))
+            if data is not None:
+                world.append([os.path.join(base, p["target"]), data.hex()])
+    return world
 
 
 def pictures_doc(rng, canary_dir, big=0.4, limit=300000):
@@ -293,6 +402,8 @@ def pictures_doc(rng, canary_dir, big=0.4, limit=300000):
         if how in ("linked", "both", "vml-both"):
             pic["link"] = rng.choice(LINK_KINDS)
             pic["target"] = link_target(rng, pic["link"], k, canary_dir)
+            if pic["link"] == "x":
+                pic["link"], pic["target"] = exotic_target(rng, canary_dir)
             ext_rel("rIdL%d" % k, pic["target"])
         if how in ("vml", "vml-both"):
             attrs = [("r:id", "rIdE%d" % k)]
@@ -323,6 +434,20 @@ def pictures_doc(rng, canary_dir, big=0.4, limit=300000):
     parts.append({"name": "word/document.xml", "xml": el("w:document", [], [el("w:body", [], body)])})
     parts.append({"name": "word/_rels/document.xml.rels", "xml": rels_xml})
     parts.append({"name": "[Content_Types].xml", "xml": el("content-types:Types", [], [el("content-types:Default", [("Extension", "png"), ("ContentType", "image/png")])])})
+    # now and then the package declares a type for an extension / for the very target of a linked picture
+    defaults, overrides = {"png": "image/png"}, {}
+    xs = [p for p in pics if p["link"] in X_KINDS]
+    if xs and rng.random() < 0.15:
+        ext, ct = rng.choice([("dat", "image/gif"), ("webp", "image/webp"), ("DAT", "image/png"), ("bmp", "image/x-ms-bmp")])
+        defaults[ext] = ct
+        parts[-1]["xml"][2].append(el("content-types:Default", [("Extension", ext), ("ContentType", ct)]))
+    if xs and rng.random() < 0.1:
+        t = rng.choice(xs)["target"]
+        if not t.startswith("/"):
+            overrides[t] = "image/gif"
+            parts[-1]["xml"][2].append(el("content-types:Override", [("PartName", rng.choice(["/", ""]) + t), ("ContentType", "image/gif")]))
+    for p in pics:
+        p["ct"] = content_type_of(p["target"], defaults, overrides) if p["how"] == "linked" else "image/png"
     return parts, pics
 
 
@@ -334,11 +459,18 @@ def allowed_io(pics, named, opens, base):
         if p["how"] != "linked":
             delivered.append(p["data"])     # embedded, or embedded and linked: the embedded copy, no outside access
             continue
+        if p.get("ct", "image/png") not in FRIENDLY:
+            warns.append(("Image of type %s is unlikely to display in web browsers" % p["ct"], ""))     # said while the package is read
         if not opens:
             delivered.append(None)
             continue
         kind, target = p["link"], p["target"]
-        linked_bytes = bytes([9, int(target[-5]), 9]) if kind == "abs-file" or (kind == "rel" and named) else None
+        if kind in X_KINDS:
+            # a target of exotic_target: the picture is whatever lies at exactly join(base, target) / at the path of the file: URL
+            linked_bytes = (literal_bytes(os.path.join(base, target)) if named else None) if kind == "rel-x" else (literal_bytes(target[len("file://"):]) if kind == "abs-file-x" else None)
+            kind = {"rel-x": "missing" if named and linked_bytes is None else "rel", "abs-file-x": "abs-file", "url-x": "url"}[kind]
+        else:
+            linked_bytes = bytes([9, int(target[-5]), 9]) if kind == "abs-file" or (kind == "rel" and named) else None
         delivered.append(linked_bytes)
         if kind in ("rel", "missing"):
             if named:
@@ -455,7 +587,8 @@ def timed_audit(out, tier, seed, model_ok, base):
                 probs.append("messages other than the warnings of the unopenable linked images: %r" % msgs[:4])
             if conv is None:
                 got = re.findall(r'<img[^>]* src="([^"]*)"', r.value)
-                want = ["data:image/png;base64," + base64.b64encode(d).decode("ascii") for d in delivered if d is not None]
+                in_order = [p for p in pics if p["where"] == "body"] + [p for p in pics if p["where"] == "note"]
+                want = ["data:%s;base64," % p.get("ct", "image/png") + base64.b64encode(d).decode("ascii") for p, d in zip(in_order, delivered) if d is not None]
                 if got != want:
                     probs.append("the pictures written are not the embedded copies / the linked files, in order: %d pictures, expected %d; first difference at %s" % (
                         len(got), len(want), next((j for j, (a, b) in enumerate(zip(got, want)) if a != b), min(len(got), len(want)))))
@@ -468,10 +601,7 @@ def timed_audit(out, tier, seed, model_ok, base):
         if probs:
             out.violation("; ".join(probs[:3]), case, expected=[list(a) for a in allowed], actual=[list(e) for e in events[:10]] + [["raw-text"] + list(e) for e in raw_events[:5]])
         if model_ok and sum(sizes) < 600000:
-            world = []
-            for k in range(3):
-                world.append([os.path.join(base, "pics", "img%d.png" % k), bytes([9, k, 9]).hex()])
-                world.append(["file://" + os.path.join(base, "pics", "img%d.png" % k), bytes([9, k, 9]).hex()])
+            world = world_of(base, pics)
             lines.append({"op": "api", "parts": parts, "options": opts, "base": base if named else None, "world": world})
             meta.append((case, r.value, A.norm_messages(msgs), [(e, a) for _ph, e, a in events if e in ("open", "urllib.Request")]))
     if lines:
@@ -508,6 +638,7 @@ def run(out, tier, seed, model_ok):
             f.write(bytes([9, k, 9]))
         with open(os.path.join(base, "decoy%d.png" % k), "wb") as f:       # never referenced by any document
             f.write(bytes([7, k, 7]))
+    exotic_world(base)
     # warm every lazy import the library does on first use
     g, parts, opts = C.api_case(1, {})
     D.run_real(D.build_docx(parts), {}, want_doc=True)
@@ -633,7 +764,9 @@ def run(out, tier, seed, model_ok):
                 "subset and external general / parameter entities pointing at local canary files and a URL, named and anonymous inputs, converters that do or do not open "
                 "the image; observation = Python audit events (open, urllib.Request, socket.*, os.open, ...) raised during convert_to_html: only the linked images, resolved "
                 "against the input's directory, at the moment the converter opens them; unopenable / unnamed cases give warnings; the event list equals the Lean ioTrace; "
-                "non-trivial = the document links an image")
+                "non-trivial = the document links an image; link targets also as they may be WRITTEN (percent escapes of space / dots / slashes / percent / non-ASCII, query, fragment, "
+                "backslash, dot segments, white space, no or unknown extension) with the literally named file and the file a decoding resolver would reach both present: "
+                "the path opened is exactly join(dirname(input), target), nothing is opened while the package is read or the raw text extracted")
     out.sample({"links": meta[0][0]["links"] if meta else None, "named": meta[0][0]["named"] if meta else None})
 
 
